@@ -93,7 +93,20 @@ impl<'a> ExpressionEvaluator<'a> {
         self.program().expect_next_token(Token::RightParen)?;
         self.program()
             .push_function_call_onto_stack_and_goto_it(function_name, bindings)?;
-        let value = self.evaluate_expression()?;
+        let result = self.evaluate_expression();
+        let value = match result {
+            Ok(value) => value,
+            Err(mut err) => {
+                // Attribute the error to the function body while we're still
+                // there, then unwind our stack frame: if we're at a breakpoint
+                // the stack outlives this immediate statement, and a leftover
+                // frame would shadow the program's variables after CONT.
+                self.program().populate_error_location(&mut err);
+                self.program()
+                    .pop_function_call_off_stack_and_return_from_it();
+                return Err(err);
+            }
+        };
         self.program()
             .pop_function_call_off_stack_and_return_from_it();
 
